@@ -5,6 +5,8 @@ package interp
 // content, panic classification.
 
 import (
+	"runtime/debug"
+	"os"
 	"fmt"
 	"go/token"
 	"go/types"
@@ -230,6 +232,9 @@ func classifyPanic(p interface{}) interface{} {
 	case *runtime.TypeAssertionError:
 		return engineError{"internal: " + x.Error() + " @ " + callerSummary()}
 	case runtime.Error:
+		if os.Getenv("SYMGO_STACK") != "" {
+			fmt.Fprintf(os.Stderr, "runtime error %v @ %s\n%s\n", x, callerSummary(), debug.Stack())
+		}
 		return p
 	case string:
 		for _, pre := range enginePanicPrefixes {
